@@ -113,6 +113,73 @@ def gen_config(rnd, max_jobs=14, max_depth=3, profile=None):
     return cfg
 
 
+def gen_ladder(rnd):
+    """window stress: one scheduler with a window of 1-3 and 4-12 jobs that all last 0 or all last 1
+    time unit plus 0-3 loop iterations, each later job requiring one or two earlier ones with
+    probability 1/2: jobs queue for slots while others end a few callbacks apart in one instant and
+    successors are created in between (the schedule on which a freed slot can be handed out twice)"""
+    w = rnd.randint(1, 3)
+    n = rnd.randint(w + 3, w + 9)
+    root = S(0, rnd, window=w, crit=False, sdto=1)
+    jobs = [root]
+    d = rnd.choice([0, 1])
+    for i in range(1, n + 1):
+        j = J(0, rnd, dur=d, yields=rnd.randint(0, 3))
+        if i > 1 and rnd.random() < 0.5:
+            j["reqs"] = [rnd.randint(1, i - 1)]
+            if i > 2 and rnd.random() < 0.2:
+                r2 = rnd.randint(1, i - 1)
+                if r2 not in j["reqs"]:
+                    j["reqs"].append(r2)
+        if rnd.random() < 0.15:
+            j["out"] = "exc"
+        if rnd.random() < 0.2:
+            j["cls"] = "job"
+        jobs.append(j)
+    cfg = {"jobs": jobs, "pure_root": rnd.random() < 0.3, "sync_api": rnd.random() < 0.5}
+    order = list(range(1, n + 1))
+    rnd.shuffle(order)
+    cfg["insert_order"] = order
+    return cfg
+
+
+def gen_stagger(rnd):
+    """crash points of a nested run: an outer scheduler ends (timeout, or a critical job of its own
+    raising) while a scheduler nested one or two levels below is in its main loop, is cancelling a
+    job whose cancellation takes time, or is in its shutdown phase"""
+    deep = rnd.random() < 0.6
+    c = rnd.randint(1, 3)                     # how long the inner job takes to handle cancellation
+    sd = rnd.choice([0, 0, 1, 2, 3])          # its shutdown handler
+    t1 = rnd.randint(0, 3)                    # the inner run is told to stop at t1
+    t2 = t1 + rnd.randint(0, c + sd + 1)      # the outer one ends at t2
+    by_failure = rnd.random() < 0.4
+    jobs = [S(0, rnd, crit=rnd.random() < 0.5, sdto=rnd.choice([None, 1, 2, 3]),
+              timeout=None if by_failure else t2)]
+    if by_failure:
+        jobs.append(J(0, rnd, crit=True, out="exc", dur=t2))
+    par = 0
+    if deep:
+        jobs.append(S(0, rnd, crit=rnd.random() < 0.5, timeout=t1, sdto=rnd.choice([None, 1, 2, 3])))
+        par = len(jobs) - 1
+    inner = S(par, rnd, crit=rnd.random() < 0.5, timeout=None if deep else t1, sdto=rnd.choice([1, 2, 3]),
+              window=rnd.choice([0, 0, 1, 2]))
+    jobs.append(inner)
+    ii = len(jobs) - 1
+    for _ in range(rnd.randint(1, 3)):
+        jobs.append(J(ii, rnd, dur=rnd.choice([None, t2 + 4, t1 + 1]), cdur=rnd.choice([0, c, c]), sdur=rnd.choice([0, sd, sd]),
+                      cls=rnd.choice(["abstract", "abstract", "job"])))
+    if rnd.random() < 0.5:
+        jobs.append(J(par, rnd, dur=rnd.randint(0, 3), reqs=[]))
+    if rnd.random() < 0.4:
+        jobs.append(J(0, rnd, dur=rnd.randint(0, 4), sdur=rnd.choice([0, 1])))
+    # members must follow their scheduler and requirements point backwards: already the case
+    cfg = {"jobs": jobs, "pure_root": False, "sync_api": rnd.random() < 0.5}
+    order = list(range(1, len(jobs)))
+    rnd.shuffle(order)
+    cfg["insert_order"] = order
+    return cfg
+
+
 def never_ends(cfg, i, memo=None):
     """would job i (atomic or scheduler) never end on its own?  (conservative)"""
     j = cfg["jobs"][i]
